@@ -268,7 +268,7 @@ package raft
 //@ func (*snapshots).meta
 //@   modifies fdone, fsize
 //@   ensures [C12.meta-read] result1 == nil && s.index != 0 ==> LabelAt(mfile(s.dir, s.index), result0.index, result0.term, result0.config.Index, result0.config.Term, result0.size)
-//@   ensures s.index == 0 ==> result1 == nil && result0.index == 0 && result0.term == 0
+//@   ensures s.index == 0 ==> result1 == nil && result0.index == 0 && result0.term == 0 && result0.config.Index == 0 && result0.config.Term == 0 && result0.config.Nodes == nil
 //@   ensures [C10.meta-exists] result1 == nil && s.index != 0 ==> fs[mfile(s.dir, s.index)]
 //@   ensures forall(p, fdone[p] == old(fdone[p]) && fsize[p] == old(fsize[p]))
 
